@@ -16,7 +16,10 @@ from pyvc.spec import *   # noqa
 from . import lib_graphql as GQ
 from ariadne_codegen import utils as U
 
-RESERVED = list(U.PYDANTIC_RESERVED_FIELD_NAMES)
+import pydantic                                                    # noqa: E402
+# the statement's `pydantic model attribute`: every public attribute of pydantic.BaseModel - computed here from pydantic itself,
+# NOT taken from the repository's constant (an oracle must not move with the code it judges)
+RESERVED = sorted(n for n in dir(pydantic.BaseModel) if not n.startswith("_"))
 RE_LOWER_WORD = z3.Plus(z3.Range("a", "z"))
 RE_DIGITS = z3.Plus(z3.Range("0", "9"))
 RE_WORD = z3.Union(RE_LOWER_WORD, RE_DIGITS)
